@@ -217,6 +217,9 @@ def run_schedule(sc, sched, seqs):
         fns = [mk(i, calls) for i, calls in enumerate(sc["threads"])]
         if "random" in sched:
             pol = verif_sched.policy_random(random.Random(sched["random"]), sched.get("p", 0.15))
+        elif "park" in sched:
+            pol = verif_sched.policy_park(sched.get("start", 0), sched["park"], sched["other"],
+                                          lambda: sum(1 for it in log.events if it[0] == "Body"))
         else:
             pol = verif_sched.policy_preemptions(sched.get("start", 0), [tuple(x) for x in sched.get("preempts", [])])
         ctrl = verif_sched.Controller(fns, pol, max_steps=int(sc.get("max_steps", 20000)))
